@@ -96,3 +96,8 @@ package pruner
 //@   requires s != nil && s.checkpoint != nil
 //@   callpre Getter).GetByHeight: $arg2 == failed
 //@   callpre Pruner).Prune: $arg2 == h
+// (the failed set is edited in place - never replaced - and an iteration leaves its height in the set unless
+// both the header look-up and the pruning of that header succeeded)
+//@   ensures s.checkpoint.FailedHeaders == old(s.checkpoint.FailedHeaders)
+//@   loop 1: invariant s.checkpoint == old(s.checkpoint) && s.checkpoint.FailedHeaders == old(s.checkpoint.FailedHeaders)
+//@   loop 1: backedge has(s.checkpoint.FailedHeaders, failed) || err == nil
